@@ -47,7 +47,7 @@ package s2
 //@ func (cu *CellUnion) Intersects(o CellUnion) bool
 //@   requires cu != nil && vcSortedDisjoint(o) && (forall k int :: 0 <= k && k < len(*cu) ==> vcValid((*cu)[k]))
 //@   ensures [any] result ==> (exists j int :: exists k int :: 0 <= j && j < len(*cu) && 0 <= k && k < len(o) && o[k].Intersects((*cu)[j]))
-//@   ensures [none!] !result ==> (forall j int :: forall k int :: 0 <= j && j < len(*cu) && 0 <= k && k < len(o) ==> !o[k].Intersects((*cu)[j]))
+//@   ensures [none] !result ==> (forall j int :: forall k int :: 0 <= j && j < len(*cu) && 0 <= k && k < len(o) ==> !o[k].Intersects((*cu)[j]))
 //@   loop 1 (rangeindex int): invariant forall j int :: forall k int :: 0 <= j && j <= rangeindex && 0 <= k && k < len(o) ==> !o[k].Intersects((*cu)[j])
 
 //@ func (cu *CellUnion) IsValid() bool
@@ -66,10 +66,33 @@ package s2
 //@   ensures [valid] forall k int :: 0 <= k && k < len(result) ==> vcValid(result[k])
 //@   ensures [first] len(result) > 0 ==> vcLo(result[0]) == uint64(begin)
 //@   ensures [last] len(result) > 0 ==> vcHi(result[len(result)-1]) + 2 == uint64(end)
-//@   ensures [contiguous!] forall k int :: 0 < k && k < len(result) ==> vcHi(result[k-1]) + 2 == vcLo(result[k])
-//@   ensures [empty!] len(result) == 0 <==> begin == end
+//@   ensures [contiguous] forall k int :: 0 < k && k < len(result) ==> vcHi(result[k-1]) + 2 == vcLo(result[k])
+//@   ensures [nonempty-if-less] begin != end ==> len(result) > 0
 //@   loop 1 (id CellID, cu CellUnion): invariant [id] id == end || (vcValid(id) && vcHi(id) < uint64(end))
 //@   loop 1: invariant [tiled-valid] forall k int :: 0 <= k && k < len(cu) ==> vcValid(cu[k])
 //@   loop 1: invariant [tiled-contig!] forall k int :: 0 < k && k < len(cu) ==> vcHi(cu[k-1]) + 2 == vcLo(cu[k])
 //@   loop 1: invariant [ends] (len(cu) > 0 ==> vcLo(cu[0]) == uint64(begin) && vcHi(cu[len(cu)-1]) + 2 == vcLo(id)) && (len(cu) == 0 ==> vcLo(id) == uint64(begin) || (id == end && begin == end))
 //@   loop 1: decreases! int((uint64(end) - vcLo(id)) >> 1)
+
+// ---------------------------------------------------------------- CellIndex contents iteration
+
+// cell tree: every node's parent index precedes it (-1 = root sentinel); real nodes carry labels >= 0
+//@ spec func vcTreeOK(t []cellIndexNode) bool = forall k int :: 0 <= k && k < len(t) ==> -1 <= int(t[k].parent) && int(t[k].parent) < k && t[k].label >= 0
+//@ spec func vcContentsIt(c *CellIndexContentsIterator) bool = c != nil && vcTreeOK(c.cellTree) && -1 <= int(c.nodeCutoff) && -1 <= int(c.nextNodeCutoff) &&
+//@    -1 <= int(c.node.parent) && int(c.node.parent) < len(c.cellTree)
+
+//@ func (c *CellIndexContentsIterator) Next()
+//@   requires vcContentsIt(c)
+//@   modifies c.nodeCutoff, c.node
+//@   ensures vcContentsIt(c)
+
+// Visiting ranges out of order must switch duplicate suppression off: the union that starts at an earlier id than
+// the previous one reports its first node (if it has contents at all).
+//@ func (c *CellIndexContentsIterator) StartUnion(r *CellIndexRangeIterator)
+//@   requires vcContentsIt(c) && r != nil && 0 <= r.pos && r.pos < len(r.rangeNodes) && -1 <= int(r.rangeNodes[r.pos].contents) && int(r.rangeNodes[r.pos].contents) < len(c.cellTree)
+//@   modifies c.nodeCutoff, c.nextNodeCutoff, c.prevStartID, c.node
+//@   ensures [it] vcContentsIt(c)
+//@   ensures [remembers] c.prevStartID == r.rangeNodes[r.pos].startID
+//@   ensures [backwards] r.rangeNodes[r.pos].startID < old(c.prevStartID) && r.rangeNodes[r.pos].contents >= 0 ==> !c.Done() && vcSame(c.node, c.cellTree[r.rangeNodes[r.pos].contents])
+//@   ensures [forwards] r.rangeNodes[r.pos].startID >= old(c.prevStartID) && r.rangeNodes[r.pos].contents > old(c.nodeCutoff) ==> !c.Done() && vcSame(c.node, c.cellTree[r.rangeNodes[r.pos].contents])
+//@   ensures [suppressed] r.rangeNodes[r.pos].startID >= old(c.prevStartID) && r.rangeNodes[r.pos].contents <= old(c.nodeCutoff) ==> c.Done()
